@@ -287,18 +287,21 @@ var refLabels = []string{"tag", "digest", "full-tag", "full-digest", "other-dige
 var formats = []string{"jws", "cose"}
 var signerKinds = []string{"generic-wrapped-chain3", "instrumented-backdated-chain2", "generic-raw-chain2"}
 
-// alphabetT: 5 references x the first NMD metadata maps x 2 formats.
+// alphabetT: 5 references x the first NMD metadata maps x NFmt formats (NFmt = 1: the format
+// alternates with reference number + metadata number instead of being a dimension).
 type alphabetT struct {
 	Name string
 	NMD  int
+	NFmt int
 }
 
 var (
-	coreAlphabet = alphabetT{"core", 4}
-	fullAlphabet = alphabetT{"full", len(mds)}
+	coreAlphabet = alphabetT{"core", 4, 2}
+	fullAlphabet = alphabetT{"full", len(mds), 2}
+	wideAlphabet = alphabetT{"full-metadata-one-format", len(mds), 1}
 )
 
-func (a alphabetT) size() int { return 5 * a.NMD * 2 }
+func (a alphabetT) size() int { return 5 * a.NMD * a.NFmt }
 
 type opT struct {
 	Ref    string `json:"ref"`      // label of refT
@@ -313,9 +316,12 @@ func (o opT) String() string { return o.Ref + "+" + o.MD + "+" + o.Format + "@" 
 // is no dimension of its own: it rotates with (idx+step), so that every
 // (reference, metadata, format) meets every signer kind at some position.
 func (a alphabetT) opAt(idx, step int) opT {
-	fi := idx % 2
-	mi := (idx / 2) % a.NMD
-	ri := idx / (2 * a.NMD)
+	fi := idx % a.NFmt
+	mi := (idx / a.NFmt) % a.NMD
+	ri := idx / (a.NFmt * a.NMD)
+	if a.NFmt == 1 {
+		fi = (ri + mi) % 2
+	}
 	return opT{Ref: refLabels[ri], MD: mds[mi].Label, Format: formats[fi], Signer: signerKinds[(idx+step)%3]}
 }
 
@@ -1513,7 +1519,7 @@ func replay(r *hx.Run) {
 
 func main() {
 	r := hx.New("C11")
-	r.Rule = "every sequence of 1..d operations over an alphabet of 5 references x metadata maps x 2 envelope formats (full: 10 maps incl. 5 reserved-prefix shapes and 2 near misses = 100 operations, d = 2 on every repository, thorough also d = 3 on the mock; core: the first 4 maps = 40 operations, thorough d = 3 on every repository; the signer kind rotates with operation number + position) is replayed on a fresh repository (mock handing out one descriptor object / on-disk OCI layout opened by registry.NewOCIRepository / oras memory store) for each of 2 artifacts; the LAST call of every history is judged against the reference model and the before-first-call snapshots (earlier calls were judged as last call of the shorter history); canonical state = (multiset of signature manifests by format and signed annotations, artifact annotations as reported for the tag); non-trivial = distinct histories of length >= 2 with at least one successful signing call"
+	r.Rule = "every sequence of 1..d operations over an alphabet of 5 references x metadata maps x 2 envelope formats (full: 10 maps incl. 5 reserved-prefix shapes and 2 near misses = 100 operations, d = 2 on every repository; the same with one format per (reference, metadata) = 50 operations, thorough d = 3 on the mock; core: the first 4 maps = 40 operations, thorough d = 3 on every repository; the signer kind rotates with operation number + position) is replayed on a fresh repository (mock handing out one descriptor object / on-disk OCI layout opened by registry.NewOCIRepository / oras memory store) for each of 2 artifacts; the LAST call of every history is judged against the reference model and the before-first-call snapshots (earlier calls were judged as last call of the shorter history); canonical state = (multiset of signature manifests by format and signed annotations, artifact annotations as reported for the tag); non-trivial = distinct histories of length >= 2 with at least one successful signing call"
 	r.Assumptions = []string{
 		"ECDSA P-256 / SHA-256 are sound; the stored envelope is checked by lib/refsig (standard library only), signing time and certificates are decoded by hand from the JWS / COSE headers",
 		"what a reference resolves to is the repository's own answer before the first call (mock: everything resolves to the artifact; stores: the tag, the artifact's digest; the memory store has the digest tagged with the annotated descriptor and the other digest tagged with the artifact's plain descriptor, oci.Store does not resolve the other digest, returns a plain descriptor for a digest and adds org.opencontainers.image.ref.name for a tag read from index.json)",
@@ -1537,7 +1543,7 @@ func main() {
 	}
 	// quick: all histories of depth <= 2 over the full alphabet (100 operations) on every repository (the second
 	// identical call is where sharing shows). thorough adds depth 3: over the core alphabet (40 operations) on every
-	// repository and over the full alphabet on the mock (the core alphabet's depths 1 and 2 are contained in the full one's).
+	// repository and over all 10 metadata maps with one format per (reference, metadata) (50 operations) on the mock (the core alphabet's depths 1 and 2 are contained in the full one's).
 	type plan struct {
 		alpha alphabetT
 		depth map[string]int
@@ -1548,7 +1554,7 @@ func main() {
 		plans = []plan{
 			{fullAlphabet, map[string]int{"mock": 2, "disk": 2, "memory": 2}, 1},
 			{coreAlphabet, map[string]int{"mock": 3, "disk": 3, "memory": 3}, 3},
-			{fullAlphabet, map[string]int{"mock": 3}, 3},
+			{wideAlphabet, map[string]int{"mock": 3}, 3},
 		}
 		r.SetDeadline(9 * time.Minute)
 	} else {
@@ -1575,7 +1581,7 @@ func main() {
 	statesMu.Lock()
 	r.State(len(states))
 	statesMu.Unlock()
-	r.Extra["operations"] = map[string]int{"full": fullAlphabet.size(), "core": coreAlphabet.size()}
+	r.Extra["operations"] = map[string]int{"full": fullAlphabet.size(), "core": coreAlphabet.size(), wideAlphabet.Name: wideAlphabet.size()}
 	r.Extra["references"] = refLabels
 	var mdNames []string
 	for _, m := range mds {
